@@ -25,6 +25,10 @@ type fieldCase struct {
 	// build runs the real code on canonical input atoms and the reference on the same atoms;
 	// returns implementation output terms and reference output nodes (same order)
 	build func(fc *fctx) ([]frontend.Variable, []*ref.N)
+	// bigMod: identities over the BN254 scalar field (no Goldilocks lifting); termCuts: cut points
+	// at the non-linear nodes of a hook-free DAG instead of at hooked atoms
+	bigMod   bool
+	termCuts bool
 }
 
 type fctx struct {
@@ -130,7 +134,12 @@ func runFieldCase(r *Run, family string, c fieldCase, extraHooks map[string]hook
 	}
 	q := newEqCheck(r, c.name, family, e, fc.rb)
 	q.bound = c.bound
-	q.sweepDefs(w.defs)
+	q.bigMod = c.bigMod
+	if c.termCuts {
+		q.sweepTerms(outs)
+	} else {
+		q.sweepDefs(w.defs)
+	}
 	for i := range outs {
 		ok, diff := q.output(fmt.Sprint(i), outs[i], refs[i])
 		if ok {
@@ -141,14 +150,21 @@ func runFieldCase(r *Run, family string, c fieldCase, extraHooks map[string]hook
 			// (contract-level) encoding with the inputs pinned, then report
 			em := sym.NewEmitter()
 			em.DefMode = true
+			em.ModWrap = true
+			dr0 := diff
+			em.Pin = func(a *sym.Term) *big.Int { return q.envVal(dr0, a) }
 			on := em.Ref(outs[i])
+			em.Raw("(declare-const pinned_point Bool)")
 			var pins []string
 			for _, a := range em.AtomsSeen {
-				em.Assert(fmt.Sprintf("(= %s %s)", a.Name, q.envVal(diff, a)))
 				pins = append(pins, fmt.Sprintf("%s=%s", a.Name, q.envVal(diff, a)))
 			}
 			want := q.refEval(diff, refs[i])
-			em.Assert(fmt.Sprintf("(not (= (mod %s %s) %s))", on, P, want))
+			if c.bigMod {
+				em.Assert(fmt.Sprintf("(not (= %s %s))", on, want))
+			} else {
+				em.Assert(fmt.Sprintf("(not (= (mod %s %s) %s))", on, P, want))
+			}
 			name, idx := c.name, i
 			got := new(big.Int).Mod(q.implEval(diff, outs[i]), P)
 			cc, dr := c, diff
@@ -378,6 +394,12 @@ func runC08(r *Run) {
 			a, ra := fc.qeIn("a")
 			return fc.qeT(fc.chip.ExpExtension(a, ex)), eN(fc.rb.EExp(ra, ex))
 		}})
+		if ex <= 17 {
+			cases = append(cases, fieldCase{name: fmt.Sprintf("ExpExtension[e=%d]/msb-first", ex), bound: bnd + fmt.Sprintf(", exponent %d, textbook MSB-first reference", ex), build: func(fc *fctx) ([]frontend.Variable, []*ref.N) {
+				a, ra := fc.qeIn("a")
+				return fc.qeT(fc.chip.ExpExtension(a, ex)), eN(fc.rb.EExpMSB(ra, ex))
+			}})
+		}
 	}
 	lens := []int{0, 1, 2, 3, 8, 16}
 	if r.Thorough() {
